@@ -195,6 +195,14 @@ func (in *Interp) selectOp(fr *frame, x *ssa.Select) Value {
 // goStmt records a spawned goroutine and ignores it: it is environment.
 func (in *Interp) goStmt(fr *frame, x *ssa.Go) {
 	c := x.Common()
+	if !c.IsInvoke() {
+		if d := in.directive(c.StaticCallee(), replModeGoInline); d != nil {
+			// harness directive: run the goroutine to completion at the spawn point
+			in.noteDirective(d, c.StaticCallee())
+			in.call(fr, c, x)
+			return
+		}
+	}
 	name := "<dynamic>"
 	if c.IsInvoke() {
 		name = "invoke " + c.Method.FullName()
